@@ -31,12 +31,19 @@ pub struct Opts {
     pub a_no_strict_err: bool,
     /// C16: query the faulting address afterwards
     pub prefetch_pc: bool,
+    /// how the step is driven: 0 step_in, 1 run_with_limit(1), 2 step_over, 3 step_out,
+    /// 4 run_with_limit(1) with one PC breakpoint (C13)
+    pub mode: u8,
+    /// install the default internal-register mappings (PSR at xFFFC, MCR at xFFFE) before the step
+    pub iregs: bool,
+    /// C27(b): run with debug frames on (from an empty frame list) and check the frame pushed
+    pub debug_frames: bool,
 }
 
 pub const BASE: Opts = Opts {
     class: 0, strict: Some(false), real_traps: None, ignore_priv: None, alloca: 0, user: false, all_init: false,
     a_arch: false, a_mem: false, a_calls: false, a_depth: false, a_obs: false, a_c09: false, a_c14: false,
-    a_no_strict_err: false, prefetch_pc: false,
+    a_no_strict_err: false, prefetch_pc: false, mode: 0, iregs: false, debug_frames: false,
 };
 
 fn all_init_state(sim: &lc3_ensemble::sim::Simulator) {
@@ -50,17 +57,36 @@ fn all_init_state(sim: &lc3_ensemble::sim::Simulator) {
 }
 
 pub fn run(o: Opts) {
-    let cfg = Cfg { strict: o.strict, real_traps: o.real_traps, ignore_priv: o.ignore_priv, debug_frames: false,
+    let cfg = Cfg { strict: o.strict, real_traps: o.real_traps, ignore_priv: o.ignore_priv, debug_frames: o.debug_frames,
                     alloca: o.alloca, interrupts: o.class == CLASS_IRQ || o.class == CLASS_ANY };
     let (mut sim, script) = any_sim(&cfg);
     shape_class(&mut sim, &script, o.class);
     if o.user {
         nd::assume(sim.psr().get() >> 15 == 1);
     }
+    if o.iregs {
+        use lc3_ensemble::sim::InternalRegister;
+        let a = sim.mmap_internal(PSR_ADDR, InternalRegister::PSR);
+        let b = sim.mmap_internal(MCR_ADDR, InternalRegister::MCR);
+        assert!(a.is_ok() && b.is_ok(), "default internal-register mappings refused");
+        std::mem::forget((a, b));
+        let m: bool = nd::any();
+        sim.mcr().store(m, std::sync::atomic::Ordering::Relaxed);
+        // Stack pushes of an OS entry landing ON the mapped registers (supervisor stack pointer at the
+        // very top of the I/O page) rewrite the PSR in the middle of the entry sequence: outside the claim.
+        let r6 = sim.reg_file[REGS[6]].get();
+        let ss = sim.verif_saved_sp().get();
+        nd::assume(!(r6 >= 0xFFFD || r6 == 0) && !(ss >= 0xFFFD || ss == 0));
+    }
+    if o.debug_frames {
+        // the frame list starts empty, so the counter must too
+        nd::assume(sim.frame_stack.len() == 0);
+    }
     if o.all_init {
         all_init_state(&sim);
     }
     let pre_ssp = sim.verif_saved_sp().get();
+    let pre_psr_for_cover = sim.psr().get();
     let pre_r6 = sim.reg_file[REGS[6]];
     let user_pre = sim.psr().get() >> 15 == 1;
     // witness cell for the frame condition over all 65536 words
@@ -70,9 +96,52 @@ pub fn run(o: Opts) {
         nd::assume(before_k.is_init());
     }
     let model_strict = if o.a_c14 { Some(false) } else { None };
-    let e = predict_with(&mut sim, script, model_strict, o.all_init);
-    let r = sim.step_in();
+    let e = predict_full(&mut sim, script, model_strict, o.all_init, o.iregs);
+    let pre_irun = sim.instructions_run;
+    let pre_depth = sim.frame_stack.len();
+    let bp_pc: u16 = nd::any();
+    // run-style drivers (C13): the harness covers executions in which the documented stop condition
+    // holds after the first step (bound: one executed step per call)
+    let r = match o.mode {
+        0 => sim.step_in(),
+        1 | 4 => {
+            nd::assume(e.code != R_OK || e.halted || e.irun == pre_irun.wrapping_add(1));
+            if o.mode == 4 {
+                sim.breakpoints.insert(lc3_ensemble::sim::debug::Breakpoint::PC(bp_pc));
+            }
+            sim.run_with_limit(1)
+        }
+        2 => {
+            nd::assume(e.code != R_OK || e.halted || e.depth <= pre_depth);
+            sim.step_over()
+        }
+        3 => {
+            nd::assume(pre_depth != 0);
+            nd::assume(e.code != R_OK || e.halted || e.depth < pre_depth);
+            sim.step_out()
+        }
+        _ => {
+            // step_out at top level (depth 0) executes nothing at all
+            nd::assume(pre_depth == 0);
+            let pre_pc = sim.pc;
+            let r = sim.step_out();
+            assert!(r.is_ok() && sim.pc == pre_pc && sim.instructions_run == pre_irun && sim.frame_stack.len() == 0,
+                    "step_out at frame depth 0 executed something");
+            assert!(device_io_calls() == 0 && polls() == 0, "step_out at frame depth 0 touched a device");
+            finish(sim, r);
+            return;
+        }
+    };
     let got = err_code(&r);
+    if o.mode != 0 {
+        use std::sync::atomic::Ordering;
+        assert!(!sim.mcr().load(Ordering::Relaxed), "MCR left set after a run-style call returned");
+        assert!(sim.hit_halt() == (got == R_OK && e.halted), "hit_halt() differs from 'a HALT was executed'");
+        let want_bp = o.mode == 4 && got == R_OK && !e.halted && e.pc == bp_pc;
+        assert!(sim.hit_breakpoint() == want_bp, "hit_breakpoint() differs from 'a breakpoint matched after the executed instruction'");
+        crate::nd_cover!(e.halted, "[run] halted");
+        crate::nd_cover!(got == R_OK && !e.halted, "[run] stopped by its condition");
+    }
 
     if o.a_c14 {
         // Either strict mode rejects the step with an uninitialised-value error, or the step is
@@ -93,10 +162,34 @@ pub fn run(o: Opts) {
     if o.a_arch {
         assert_arch(&sim, &e, got);
     }
+    if o.iregs {
+        assert!(sim.mcr().load(std::sync::atomic::Ordering::Relaxed) == e.mcr, "MCR differs from the model");
+        crate::nd_cover!(e.psr != pre_psr_for_cover && e.neff > 0, "[iregs] PSR changed");
+    }
     if o.a_depth {
         assert!(sim.frame_stack.len() == e.depth, "frame depth differs from the model");
         crate::nd_cover!(e.frame_push.is_some(), "[depth] frame pushed");
         crate::nd_cover!(e.frame_pop, "[depth] frame popped");
+    }
+    if o.debug_frames {
+        use lc3_ensemble::sim::frame::FrameType;
+        let frames = sim.frame_stack.frames();
+        assert!(frames.is_some(), "debug frames requested but no frame list kept");
+        let frames = frames.unwrap();
+        assert!(frames.len() as u64 == sim.frame_stack.len(), "frame list length differs from the frame depth");
+        match e.frame_push {
+            Some((caller, callee, kind)) if e.depth == 1 => {
+                assert!(frames.len() == 1, "a call / trap / interrupt did not push exactly one frame");
+                let f = &frames[0];
+                assert!(f.caller_addr == caller, "frame holds the wrong calling / interrupted instruction address");
+                assert!(f.callee_addr == callee, "frame holds the wrong subroutine start / vector");
+                let k = match f.frame_type { FrameType::Subroutine => FT_SUB, FrameType::Trap => FT_TRAP, FrameType::Interrupt => FT_INT };
+                assert!(k == kind, "frame holds the wrong call kind");
+                assert!(f.arguments.is_empty() && f.frame_ptr.is_none(), "arguments recorded without a registered signature");
+            }
+            _ => {}
+        }
+        crate::nd_cover!(e.frame_push.is_some() && e.depth == 1, "[frames] frame pushed");
     }
     if o.a_mem {
         assert!(sim.mem[k] == e.final_mem(k, before_k), "memory cell differs from the ISA model (write set / frame condition)");
@@ -167,8 +260,8 @@ pub fn run(o: Opts) {
         let _ = sim.prefetch_pc();
     }
     assert_mem_ok();
-    crate::nd_cover!(got == R_OK, "step succeeds");
-    crate::nd_cover!(got != R_OK, "step reports an error");
+    crate::nd_cover!(got == R_OK, "[step] step succeeds");
+    crate::nd_cover!(got != R_OK, "[step] step reports an error");
     finish(sim, r);
 }
 
